@@ -324,10 +324,10 @@ class Check:
                     shutil.copy(d, outdir)
                 order = [os.path.basename(x) for x in mlis] + [os.path.basename(x) for x in mls] + \
                     [os.path.basename(d) for d in drv]
-                rc, out, err = sh(["ocamlfind", "ocamlopt", "-O3", "-w", "-a", "-package", "str", "-linkpkg"] + order +
+                rc, out, err = sh(["ocamlfind", "ocamlopt", "-O3", "-w", "-a", "-package", "str,zarith", "-linkpkg"] + order +
                                   ["-o", exe + ".tmp"], cwd=outdir, timeout=timeout)
                 if rc != 0:
-                    rc, out, err = sh(["ocamlfind", "ocamlopt", "-w", "-a", "-package", "str", "-linkpkg"] + order +
+                    rc, out, err = sh(["ocamlfind", "ocamlopt", "-w", "-a", "-package", "str,zarith", "-linkpkg"] + order +
                                       ["-o", exe + ".tmp"], cwd=outdir, timeout=timeout)
                 if rc != 0:
                     raise RuntimeError("ocaml build failed: %s\n%s" % (out[-3000:], err[-3000:]))
